@@ -21,8 +21,28 @@ type SrvReqOps interface {
 	Wstat(*SrvReq)
 }
 
+// Reports whether this is the first answer the file server gives to the
+// request. A further answer is dropped before it is packed: the buffer may
+// still hold the first one, waiting to be sent, or belong to another request
+// by now.
+func (req *SrvReq) firstAnswer() bool {
+	req.Lock()
+	first := req.status&(reqAnswered|reqResponded) == 0
+	req.status |= reqAnswered
+	req.Unlock()
+	return first
+}
+
 // Respond to the request with Rerror message
 func (req *SrvReq) RespondError(err interface{}) {
+	if !req.firstAnswer() {
+		return
+	}
+
+	req.respondError(err)
+}
+
+func (req *SrvReq) respondError(err interface{}) {
 	var ename string
 	ecode := uint32(EIO)
 	switch e := err.(type) {
@@ -59,9 +79,13 @@ func (req *SrvReq) RespondError(err interface{}) {
 
 // Respond to the request with Rversion message
 func (req *SrvReq) RespondRversion(msize uint32, version string) {
+	if !req.firstAnswer() {
+		return
+	}
+
 	err := PackRversion(req.Rc, msize, version)
 	if err != nil {
-		req.RespondError(err)
+		req.respondError(err)
 	} else {
 		req.Respond()
 	}
@@ -69,9 +93,13 @@ func (req *SrvReq) RespondRversion(msize uint32, version string) {
 
 // Respond to the request with Rauth message
 func (req *SrvReq) RespondRauth(aqid *Qid) {
+	if !req.firstAnswer() {
+		return
+	}
+
 	err := PackRauth(req.Rc, aqid)
 	if err != nil {
-		req.RespondError(err)
+		req.respondError(err)
 	} else {
 		req.Respond()
 	}
@@ -79,9 +107,13 @@ func (req *SrvReq) RespondRauth(aqid *Qid) {
 
 // Respond to the request with Rflush message
 func (req *SrvReq) RespondRflush() {
+	if !req.firstAnswer() {
+		return
+	}
+
 	err := PackRflush(req.Rc)
 	if err != nil {
-		req.RespondError(err)
+		req.respondError(err)
 	} else {
 		req.Respond()
 	}
@@ -89,9 +121,13 @@ func (req *SrvReq) RespondRflush() {
 
 // Respond to the request with Rattach message
 func (req *SrvReq) RespondRattach(aqid *Qid) {
+	if !req.firstAnswer() {
+		return
+	}
+
 	err := PackRattach(req.Rc, aqid)
 	if err != nil {
-		req.RespondError(err)
+		req.respondError(err)
 	} else {
 		req.Respond()
 	}
@@ -99,9 +135,13 @@ func (req *SrvReq) RespondRattach(aqid *Qid) {
 
 // Respond to the request with Rwalk message
 func (req *SrvReq) RespondRwalk(wqids []Qid) {
+	if !req.firstAnswer() {
+		return
+	}
+
 	err := PackRwalk(req.Rc, wqids)
 	if err != nil {
-		req.RespondError(err)
+		req.respondError(err)
 	} else {
 		req.Respond()
 	}
@@ -109,9 +149,13 @@ func (req *SrvReq) RespondRwalk(wqids []Qid) {
 
 // Respond to the request with Ropen message
 func (req *SrvReq) RespondRopen(qid *Qid, iounit uint32) {
+	if !req.firstAnswer() {
+		return
+	}
+
 	err := PackRopen(req.Rc, qid, iounit)
 	if err != nil {
-		req.RespondError(err)
+		req.respondError(err)
 	} else {
 		req.Respond()
 	}
@@ -119,9 +163,13 @@ func (req *SrvReq) RespondRopen(qid *Qid, iounit uint32) {
 
 // Respond to the request with Rcreate message
 func (req *SrvReq) RespondRcreate(qid *Qid, iounit uint32) {
+	if !req.firstAnswer() {
+		return
+	}
+
 	err := PackRcreate(req.Rc, qid, iounit)
 	if err != nil {
-		req.RespondError(err)
+		req.respondError(err)
 	} else {
 		req.Respond()
 	}
@@ -129,9 +177,13 @@ func (req *SrvReq) RespondRcreate(qid *Qid, iounit uint32) {
 
 // Respond to the request with Rread message
 func (req *SrvReq) RespondRread(data []byte) {
+	if !req.firstAnswer() {
+		return
+	}
+
 	err := PackRread(req.Rc, data)
 	if err != nil {
-		req.RespondError(err)
+		req.respondError(err)
 	} else {
 		req.Respond()
 	}
@@ -139,9 +191,13 @@ func (req *SrvReq) RespondRread(data []byte) {
 
 // Respond to the request with Rwrite message
 func (req *SrvReq) RespondRwrite(count uint32) {
+	if !req.firstAnswer() {
+		return
+	}
+
 	err := PackRwrite(req.Rc, count)
 	if err != nil {
-		req.RespondError(err)
+		req.respondError(err)
 	} else {
 		req.Respond()
 	}
@@ -149,9 +205,13 @@ func (req *SrvReq) RespondRwrite(count uint32) {
 
 // Respond to the request with Rclunk message
 func (req *SrvReq) RespondRclunk() {
+	if !req.firstAnswer() {
+		return
+	}
+
 	err := PackRclunk(req.Rc)
 	if err != nil {
-		req.RespondError(err)
+		req.respondError(err)
 	} else {
 		req.Respond()
 	}
@@ -159,9 +219,13 @@ func (req *SrvReq) RespondRclunk() {
 
 // Respond to the request with Rremove message
 func (req *SrvReq) RespondRremove() {
+	if !req.firstAnswer() {
+		return
+	}
+
 	err := PackRremove(req.Rc)
 	if err != nil {
-		req.RespondError(err)
+		req.respondError(err)
 	} else {
 		req.Respond()
 	}
@@ -169,9 +233,13 @@ func (req *SrvReq) RespondRremove() {
 
 // Respond to the request with Rstat message
 func (req *SrvReq) RespondRstat(st *Dir) {
+	if !req.firstAnswer() {
+		return
+	}
+
 	err := PackRstat(req.Rc, st, req.Conn.Dotu)
 	if err != nil {
-		req.RespondError(err)
+		req.respondError(err)
 	} else {
 		req.Respond()
 	}
@@ -179,9 +247,13 @@ func (req *SrvReq) RespondRstat(st *Dir) {
 
 // Respond to the request with Rwstat message
 func (req *SrvReq) RespondRwstat() {
+	if !req.firstAnswer() {
+		return
+	}
+
 	err := PackRwstat(req.Rc)
 	if err != nil {
-		req.RespondError(err)
+		req.respondError(err)
 	} else {
 		req.Respond()
 	}
